@@ -21,6 +21,7 @@ open Fv.Chan
 
 structure CaseSt where
   fl : Flavour := default
+  flTok : String := "?"
   skip : Option String := none       -- reason the case is not checked
   seqMode : Bool := true
   s : St := {}
@@ -59,7 +60,7 @@ def init (ws : List String) : Except String CaseSt :=
     let threads := ((kv ws "threads").bind String.toNat?).getD 1
     let seqMode := (kv ws "mode") == some "seq" || threads ≤ 1
     match parseFlavour f cap with
-    | some fl => .ok { fl := fl, seqMode := seqMode, s := Fv.Chan.init fl }
+    | some fl => .ok { fl := fl, flTok := f, seqMode := seqMode, s := Fv.Chan.init fl }
     | none =>
       if f == "spmc" || f == "spmc_async" then
         if seqMode then .ok { seqMode := true, b := some (binit cap (f == "spmc_async")) }
@@ -335,6 +336,29 @@ def showEv : Ev → String
   | .call t o => s!"C{t}:{opName o}"
   | .ret t r => s!"R{t}:{showRes r}"
 
+/-- why a never-returned operation is enabled in state `s` (the shapes the harness monitors use) -/
+def enabledShape (fl : Flavour) (s : St) (op : Op) : String :=
+  match op with
+  | .snd _ _ _ =>
+    if receiversGone fl s then "blocked-after-all-receivers-gone"
+    else if fl.fam == .rv then "blocked-with-receiver-waiting"
+    else "blocked-with-space-available"
+  | .rcv _ _ _ =>
+    if fl.fam == .os then (if s.sc == 0 then "blocked-after-all-senders-gone" else "blocked-with-item-available")
+    else if !s.buf.isEmpty || !s.sw.isEmpty then "blocked-with-item-available"
+    else "blocked-after-all-senders-gone"
+  | _ => "blocked-enabled"
+
+/-- the never-returned operations that can still move in the final state of some linearization -/
+def enabledPending (flTok : String) (fl : Flavour) (h : History) : List String :=
+  match linearizeP fl linCfg h false with
+  | none => []
+  | some (sf, pf) =>
+    pf.filterMap fun x =>
+      if x.2.2.out?.isSome || !(micro fl linCfg sf x.2.2).isEmpty then
+        some s!"{flTok}:{opName x.2.1}:{enabledShape fl sf x.2.1}"
+      else none
+
 def finish (liveness : Bool) (st : CaseSt) : Except String (List String) :=
   match st.skip with
   | some why => .ok [why]
@@ -348,7 +372,7 @@ def finish (liveness : Bool) (st : CaseSt) : Except String (List String) :=
         if quiesce ∧ linearizable st.fl linCfg h then
           -- explainable as a history, but only with a never-returned operation that could still move
           -- in the final state: a lost wakeup (C05 / C06)
-          .error s!"blocked-op-enabled-at-quiescence status={st.status}"
+          .error s!"blocked-op-enabled-at-quiescence sig={",".intercalate (enabledPending st.flTok st.fl h)} status={st.status}"
         else
           let k := shortestBadPrefix st.fl linCfg h
           .error s!"not-linearizable prefix={k} of={h.length} last={(h.take k).getLast?.map showEv |>.getD "-"}"
